@@ -380,6 +380,29 @@ func structuralValues(zctx *zed.Context) []tv {
 	add(mapv(zctx, nip.t, zed.TypeInt64, nip, i64(1)))
 	uip := zctx.LookupTypeUnion([]zed.Type{zed.TypeIP, zed.TypeString})
 	add(mapv(zctx, uip, zed.TypeInt64, ipv("::1"), i64(1)), mapv(zctx, uip, zed.TypeInt64, ipv("::1"), i64(1), str("s"), i64(2)))
+	// map entries whose key and value the lexer could read as one token (key:value)
+	tm := pv(zed.TypeTime, zed.EncodeTime(nano.Ts(1700000000123456789)))
+	for _, k := range []tv{i64(5), i64(-1), u8(7), u64(1 << 40), f64(1.5), f64(2), pv(zed.TypeFloat32, zed.EncodeFloat32(0.5)), ipv("1.2.3.4"), pv(zed.TypeDuration, zed.EncodeDuration(nano.Duration(86400e9))), pv(zed.TypeInt16, zed.EncodeInt(255))} {
+		for _, v := range []tv{tm, ipv("::1"), ipv("::"), netv("::/0"), netv("1::/16"), ipv("1.2.3.4"), netv("10.0.0.0/8"), i64(3), str("x")} {
+			add(mapv(zctx, k.t, v.t, k, v), mapv(zctx, k.t, v.t, k, v, k, nullOf(v.t)), recv(zctx, []string{"m"}, mapv(zctx, k.t, v.t, k, v)))
+		}
+	}
+	// decorators inside a value whose enclosing decorator repeats the type
+	{
+		u3 := zctx.LookupTypeUnion([]zed.Type{zed.TypeTime, zed.TypeFloat32, zed.TypeBool})
+		add(errv(zctx, recv(zctx, []string{"b"}, unionv(u3, boolv(true)))), errv(zctx, recv(zctx, []string{"b"}, nullOf(u3))),
+			errv(zctx, arrv(zctx, u3, boolv(true), tm)))
+		tn := namedv(zctx, "T", netv("::/0"))
+		add(errv(zctx, arrv(zctx, tn.t, tn, namedv(zctx, "T", netv("192.168.1.0/24")))), errv(zctx, recv(zctx, []string{"a", "b"}, tn, tn)))
+		pt := namedv(zctx, "port", tm)
+		up := zctx.LookupTypeUnion([]zed.Type{zed.TypeUint64, pt.t, recv(zctx, nil).t})
+		add(errv(zctx, unionv(up, pt)), errv(zctx, unionv(up, u64(1))), errv(zctx, unionv(up, recv(zctx, nil))))
+		// empty maps / containers of union type under a named type
+		um := zctx.LookupTypeMap(u3, zed.TypeBytes)
+		add(namedv(zctx, "port", tv{um, mapv(zctx, u3, zed.TypeBytes).b}), tv{um, mapv(zctx, u3, zed.TypeBytes).b},
+			recv(zctx, []string{"m"}, namedv(zctx, "port", tv{um, mapv(zctx, u3, zed.TypeBytes).b})),
+			namedv(zctx, "pa", arrv(zctx, u3)), namedv(zctx, "ps", setv(zctx, u3)))
+	}
 	// unions with 1..k members seen, in arrays, sets, maps
 	r1 := recv(zctx, []string{"a"}, i64(1))
 	members := []tv{i64(1), str("s"), u8(2), f64(1.5), r1, arrv(zctx, zed.TypeString, str("x")), boolv(true), ipv("::1")}
@@ -420,6 +443,11 @@ func structuralValues(zctx *zed.Context) []tv {
 	bar := namedv(zctx, "bar", recv(zctx, []string{"f", "g"}, foo, foo))
 	baz := namedv(zctx, "baz", arrv(zctx, bar.t, bar, bar))
 	add(foo, bar, baz, recv(zctx, []string{"p", "q", "r"}, baz, bar, foo), namedv(zctx, "foo2", foo), namedv(zctx, "a", namedv(zctx, "b", namedv(zctx, "c", u8(1)))))
+	// a named type of a named type whose definition mentions further named types,
+	// a name nested inside a type of the same name
+	add(namedv(zctx, "outer2", bar), namedv(zctx, "o3", namedv(zctx, "o2", recv(zctx, []string{"k"}, namedv(zctx, "leaf", u8(1))))),
+		namedv(zctx, "nest", recv(zctx, []string{"k"}, namedv(zctx, "nest", u8(1)))), nullOf(namedv(zctx, "nest", recv(zctx, []string{"k"}, namedv(zctx, "nest", u8(1)))).t),
+		recv(zctx, []string{"p", "q"}, namedv(zctx, "nest", recv(zctx, []string{"k"}, namedv(zctx, "nest", u8(1)))), namedv(zctx, "nest", u8(2))))
 	add(namedv(zctx, "pt", i64(80)), namedv(zctx, "pt", u64(80)), arrv(zctx, namedv(zctx, "pt", u64(80)).t, namedv(zctx, "pt", u64(80)), namedv(zctx, "pt", u64(81))))
 	add(namedv(zctx, "ne", enumv(zctx, []string{"x", "y"}, 1)), namedv(zctx, "nerr", errv(zctx, str("boom"))), namedv(zctx, "nerr2", errv(zctx, u8(1))))
 	add(namedv(zctx, "nmap", mapv(zctx, zed.TypeString, zed.TypeUint8, str("k"), u8(1))), namedv(zctx, "nset", setv(zctx, zed.TypeUint8, u8(1), u8(2))), namedv(zctx, "narr0", arrv(zctx, zed.TypeUint8)))
@@ -522,6 +550,11 @@ func designedStreams(zctx *zed.Context) [][]zed.Value {
 	uB := zctx.LookupTypeUnion([]zed.Type{fooB.t, zed.TypeString})
 	port := namedv(zctx, "port", pv(zed.TypeUint16, zed.EncodeUint(80)))
 	portB := namedv(zctx, "port", pv(zed.TypeUint32, zed.EncodeUint(80)))
+	uk := zctx.LookupTypeUnion([]zed.Type{zed.TypeFloat16, zed.TypeString})
+	portMap := namedv(zctx, "port", mapv(zctx, uk, zed.TypeIP, pv(zed.TypeFloat16, zed.EncodeFloat16(0)), ipv("255.255.255.255"), str("k"), ipv("::1")))
+	portMap2 := namedv(zctx, "port", mapv(zctx, uk, zed.TypeIP, pv(zed.TypeFloat16, zed.EncodeFloat16(2)), ipv("10.0.0.1"), str("z"), ipv("10.0.0.2")))
+	nestIn := namedv(zctx, "nest", u8(1))
+	nestOut := namedv(zctx, "nest", recv(zctx, []string{"k"}, nestIn))
 	mk := func(vs ...tv) []zed.Value {
 		var out []zed.Value
 		for _, v := range vs {
@@ -531,6 +564,17 @@ func designedStreams(zctx *zed.Context) [][]zed.Value {
 	}
 	return [][]zed.Value{
 		mk(fooA, fooA, fooA),
+		// union elements inside an already defined named type
+		mk(portMap, portMap, portMap2),
+		mk(namedv(zctx, "ua", arrv(zctx, uk, pv(zed.TypeFloat16, zed.EncodeFloat16(0.5)), str("a"))), namedv(zctx, "ua", arrv(zctx, uk, pv(zed.TypeFloat16, zed.EncodeFloat16(1)), str("s"))),
+			namedv(zctx, "us", setv(zctx, uk, pv(zed.TypeFloat16, zed.EncodeFloat16(0.5)), str("a"))), namedv(zctx, "us", setv(zctx, uk, pv(zed.TypeFloat16, zed.EncodeFloat16(1)), str("s")))),
+		// typedefs written inside an error type decorator
+		mk(namedv(zctx, "foo", recv(zctx, nil)), errv(zctx, unionv(zctx.LookupTypeUnion([]zed.Type{namedv(zctx, "foo", pv(zed.TypeUint16, zed.EncodeUint(1))).t, zed.TypeDuration}), pv(zed.TypeDuration, zed.EncodeDuration(1e9)))), namedv(zctx, "foo", recv(zctx, nil))),
+		mk(fooA, errv(zctx, recv(zctx, []string{"e"}, fooB)), fooA, fooB),
+		mk(fooA, nullOf(zctx.LookupTypeError(fooB.t)), fooA),
+		// a name nested in a type of the same name: formatType binds the outer name first, the reader last
+		mk(nullOf(nestOut.t), nestIn),
+		mk(nullOf(nestOut.t), nestOut, nestIn),
 		mk(fooA, fooB),
 		mk(fooA, fooB, fooA),
 		mk(fooC, fooD, fooC),
